@@ -602,3 +602,33 @@ theorem inv_run (ops : List Op) (s : Sys) (hi : Inv s) : Inv (run ops s) := by
   | cons op r ih => exact ih _ (inv_step s op hi)
 
 end Neumann.Locks
+
+namespace Neumann.Locks
+
+/-! ### wait-for graph bookkeeping -/
+
+theorem eraseFromEach_none (m : List (Nat × List Nat)) (xs : List Nat) (tx k : Nat)
+    (h : aGet m k = none) : aGet (eraseFromEach m xs tx) k = none := by
+  unfold eraseFromEach
+  induction xs generalizing m with
+  | nil => exact h
+  | cons a r ih =>
+    simp only [List.foldl_cons]
+    apply ih
+    rw [aGet_aModify]
+    by_cases e : k = a <;> simp [e, h]
+    · subst e; simp [h]
+
+/-- `remove_transaction` always removes the transaction as a *waiter* (its out-edges, wait-start
+    and priority); whether it disappears as a *holder* depends on the reverse index -/
+theorem removeTransaction_waiter_gone (g : WaitGraph) (tx : Nat) :
+    aGet (removeTransaction g tx).edges tx = none ∧ aGet (removeTransaction g tx).waitStarted tx = none ∧
+    aGet (removeTransaction g tx).priorities tx = none := by
+  unfold removeTransaction
+  refine ⟨?_, by simp [aGet_aRemove], by simp [aGet_aRemove]⟩
+  simp only
+  split
+  · exact eraseFromEach_none _ _ _ _ (by simp [aGet_aRemove])
+  · simp [aGet_aRemove]
+
+end Neumann.Locks
